@@ -145,7 +145,7 @@ Close ==
      /\ ~X3(t) /\ ~X4Close(t)
      /\ (t = "colgroup" => ~X5End)
      /\ (t \in {"script", "style"} => ~X7)
-     /\ (t \in {"ul", "dl", "table", "tbody", "tr", "select", "optgroup", "ruby", "html", "head", "title"}
+     /\ (t \in {"dl", "ruby", "html", "head", "title"}
            => LastSolid.k # "S" \/ LastSolid.t # t)                     \* required children present
      /\ (t = "html" => LastSolid.k = "E" /\ LastSolid.t = "body")
      /\ (t = "dl" => LastSolid.t = "dd")                               \* dt group must be followed by dd
@@ -434,22 +434,23 @@ BuilderSound == Complete => HtmlEq(Explicit(toks), Build(toks, Frag))
 (* D => A: the design satisfies the property relation for every option set *)
 DesignRefines ==
   Complete => \A o \in OptSets : HtmlEq(Build(toks, Frag), Build(MachineOut(toks, o), Frag))
-(* GEN: complete documents leave TLC as JSON lines (compact token tuples [k, tag, hasAttr, bytes]),
+(* GEN: complete documents leave TLC as JSON lines (compact token tuples [k, tag, hasAttr, bytes]; one
+   string per line, because PrintT wraps tuples that are longer than 80 columns),
    Emit together with the design's predicted output per option set (used for DRIFT reporting) *)
 Enc(ts) == [i \in 1..Len(ts) |-> <<ts[i].k, ts[i].t, IF ts[i].h THEN 1 ELSE 0, ts[i].x>>]
 B01(b) == IF b THEN 1 ELSE 0
 OptSeq == SetToSeq(OptSets)
 Emit == Complete =>
-  PrintT(<<"GEN", ToJson([t |-> Enc(toks),
-                          o |-> [i \in 1..Len(OptSeq) |->
-                                   [f |-> <<B01(OptSeq[i].ket), B01(OptSeq[i].kws), B01(OptSeq[i].kdoc)>>,
-                                    o |-> Enc(MachineOut(toks, OptSeq[i]))]]])>>)
-EmitToks == Complete => PrintT(<<"GEN", ToJson([t |-> Enc(toks), o |-> <<>>])>>)
+  PrintT("GEN " \o ToJson([t |-> Enc(toks),
+                            o |-> [i \in 1..Len(OptSeq) |->
+                                     [f |-> <<B01(OptSeq[i].ket), B01(OptSeq[i].kws), B01(OptSeq[i].kdoc)>>,
+                                      o |-> Enc(MachineOut(toks, OptSeq[i]))]]]))
+EmitToks == Complete => PrintT("GEN " \o ToJson([t |-> Enc(toks), o |-> <<>>]))
 (* one eighth of the complete states, chosen by a checksum of the token sequence (deterministic) *)
 KCode(k) == CASE k = "S" -> 1 [] k = "E" -> 2 [] k = "T" -> 3 [] OTHER -> 5
 Checksum == FoldLeft(LAMBDA a, i : (a * 3 + i * (KCode(toks[i].k) + Len(toks[i].x) + (IF toks[i].h THEN 7 ELSE 0))) % 1009,
                      0, [i \in 1..Len(toks) |-> i])
-EmitSample == Complete /\ Checksum % 8 = 0 => PrintT(<<"GEN", ToJson([t |-> Enc(toks), o |-> <<>>])>>)
+EmitSample == Complete /\ Checksum % 8 = 0 => PrintT("GEN " \o ToJson([t |-> Enc(toks), o |-> <<>>]))
 
 AllOpts == [ket : BOOLEAN, kws : BOOLEAN, kdoc : BOOLEAN]
 Opts4 == {[ket |-> FALSE, kws |-> FALSE, kdoc |-> FALSE], [ket |-> TRUE, kws |-> FALSE, kdoc |-> FALSE],
@@ -465,5 +466,9 @@ VocabSmall == {"div", "p", "ul", "li", "span", "a", "img", "select", "option", "
                "table", "tbody", "tr", "td", "template", "noscript", "button"}
 VocabQuick == {"div", "p", "ul", "li", "span", "a", "img", "select", "option", "optgroup", "script", "my-el", "pre",
                "table", "tbody", "tr", "td", "template", "noscript", "button", "ruby", "rt", "textarea"}
+VocabTable == {"table", "tbody", "tr", "td", "colgroup", "col", "script", "template", "span", "p"}
+VocabList == {"ul", "li", "dl", "dt", "dd", "p", "div", "script", "span", "a"}
+VocabSelect == {"select", "optgroup", "option", "script", "template", "span", "p", "pre"}
+VocabInline == {"span", "a", "b", "img", "button", "textarea", "br", "p", "div", "my-el", "pre"}
 VocabDoc == {"html", "head", "body", "title", "meta", "style", "script", "div", "p", "span", "ul", "li", "a", "img"}
 =============================================================================
